@@ -128,30 +128,41 @@ def lenOfChars (cs : List Char) : Option Len :=
 def priLenOfChars (cs : List Char) : Option PriLen :=
   I18n.Spec.Printf.allPriLens.find? (fun l => l.chars == cs)
 
+/-- `width = match.group('width'); if width is not None: … elif match.group('varwidth'): varwidth_index = match.group('varwidth_index') …` -/
+def decodeWidth (g5 g6 g7 : Option (List Char)) : Width :=
+  match g5 with
+  | some ds => .num ds
+  | none => if g6.isSome then .star (g7.map rstripDollar) else .none
+
+/-- the same for `precision`, `varprec`, `varprec_index` -/
+def decodePrec (g8 g9 g10 : Option (List Char)) : Prec :=
+  match g8 with
+  | some ds => .num ds
+  | none => if g9.isSome then .star (g10.map rstripDollar) else .none
+
+/-- `c99conversion = match.group('c99conv'); c99length = match.group('c99len'); length = match.group('length');
+    conversion = match.group('conversion'); if c99conversion is not None: … else …` -/
+def decodeBody (g11 g12 g13 g14 : Option (List Char)) : Option Body :=
+  match g13 with
+  | some [c] =>
+    match g14 with
+    | some l => (priLenOfChars l).map fun pl => .pri c pl
+    | none => none
+  | _ =>
+    match g12 with
+    | some [c] =>
+      match g11 with
+      | none => some (.std none c)
+      | some l => (lenOfChars l).map fun ln => .std (some ln) c
+    | _ => none
+
 /-- the fields `Conversion.__init__` reads: `match.group('index')`, `'flags'`, `'width'`, `'varwidth'`, `'varwidth_index'`,
     `'precision'`, `'varprec'`, `'varprec_index'`, `'length'`, `'conversion'`, `'c99conv'`, `'c99len'` -/
 def decodeDirective (s : List Char) (m : Match) : Option Directive :=
   let g := groupText s m
-  let index := (g 3).map rstripDollar
-  let flags := (g 4).getD []
-  let width : Width :=
-    match g 5 with
-    | some ds => .num ds                              -- `if width is not None`
-    | none => if (g 6).isSome then .star ((g 7).map rstripDollar) else .none   -- `elif match.group('varwidth')`
-  let prec : Prec :=
-    match g 8 with
-    | some ds => .num ds
-    | none => if (g 9).isSome then .star ((g 10).map rstripDollar) else .none
-  match g 13, g 14 with
-  | some [c], some l =>                               -- `if c99conversion is not None`
-    (priLenOfChars l).map fun pl => { index, flags, width, prec, body := .pri c pl }
-  | _, _ =>
-    match g 12 with
-    | some [c] =>
-      match g 11 with
-      | none => some { index, flags, width, prec, body := .std none c }
-      | some l => (lenOfChars l).map fun ln => { index, flags, width, prec, body := .std (some ln) c }
-    | _ => none
+  (decodeBody (g 11) (g 12) (g 13) (g 14)).map fun body =>
+    { index := (g 3).map rstripDollar, flags := (g 4).getD [], width := decodeWidth (g 5) (g 6) (g 7),
+      prec := decodePrec (g 8) (g 9) (g 10), body := body }
 
 /-- `literal = match.group('literal'); if literal is not None: items += [literal] else: items += [Conversion(self, match)]` -/
 def decodeMatch (s : List Char) (m : Match) : Option Item :=
